@@ -27,7 +27,7 @@ func init() {
 	scenario("C13", "schedule", func(r *core.Run, c core.Case) {
 		var p C13Case
 		params(c, &p)
-		for _, s := range readerStreams(p.Level) {
+		for _, s := range append(readerStreams(maxInt(p.Level, 0)), longStreams()...) {
 			if s.Name == p.Stream {
 				x := core.Replay(func(x *core.X) { c13Body(r, s, p, x) }, p.Choices)
 				_ = x
@@ -130,7 +130,7 @@ func c13Body(r *core.Run, s Stream, p C13Case, x *core.X) {
 			trace = append(trace, "open:"+errStr(err))
 			return
 		}
-		buf := make([]byte, 4096)
+		buf := make([]byte, maxInt(4096, p.DefBuf))
 		zeroNil := 0
 		for step := 0; step < 100000; step++ {
 			size := p.DefBuf
@@ -185,6 +185,10 @@ func c13Body(r *core.Run, s Stream, p C13Case, x *core.X) {
 		}
 	})
 	if pan != nil {
+		if pan.Site() == "unknown" {
+			// no repository frame on the stack: a bug of the harness, never a verdict
+			panic("C13 harness error: " + pan.Value)
+		}
 		r.Violate(mk(), s.Fmt+"R panic@"+pan.Site(), desc(), pan.Value+" | "+pan.Stack, "no panic")
 		r.Eval(core.Hash("panic"))
 		return
@@ -247,6 +251,30 @@ func runC13(r *core.Run) {
 			}
 		}
 	}
+	// streams whose output exceeds the 4 KiB reader dictionary (ring-buffer wrap): uniform
+	// schedules and deviation bound 1 (several thousand choice points each)
+	for _, s := range longStreams() {
+		s := s
+		for _, b := range []int{1, 2, 3, 5, 4095, 4096, 4097, 16384} {
+			for _, f := range []int{1, 0} {
+				if b <= 3 && f == 1 && !thorough(r) {
+					continue
+				}
+				p := C13Case{Stream: s.Name, Level: level, DefBuf: b, DefFrag: f}
+				core.Replay(func(x *core.X) { c13Body(r, s, p, x) }, nil)
+				totalExec++
+			}
+		}
+		p := C13Case{Stream: s.Name, Level: level, DefBuf: 4096}
+		e := &core.Explorer{Bound: 1, Workers: r.Workers, Body: func(x *core.X) { c13Body(r, s, p, x) },
+			Stop: func() bool { return r.Expired("deviation-bounded schedules (long streams)") }}
+		e.Run()
+		totalExec += e.Executions
+		totalPoints += e.Points
+		if !e.Complete {
+			complete = false
+		}
+	}
 	if !complete {
 		r.CapHit("deviation exploration stopped by the deadline")
 	}
@@ -257,4 +285,11 @@ func runC13(r *core.Run) {
 	r.Sample(map[string]interface{}{"stream": streams[0].Name, "schedule": "default buffer 4096; deviations: read#1 len(p)=0, src@57: 1 byte"})
 	r.Sample(map[string]interface{}{"stream": streams[len(streams)-1].Name, "schedule": "uniform: caller buffer 3, source fragment 2, last fragment with io.EOF"})
 	r.Assume("(0,nil) source answers are outside the alphabet (the statement does not list them)")
+}
+
+func maxInt(a, b int) int {
+	if a > b {
+		return a
+	}
+	return b
 }
